@@ -573,7 +573,8 @@ def run_history_modular(f, name, ops):
 def histories(name, tier):
     nonce, dr, isx = ALIASES[name]
     end = (1 << 38) if nonce == 12 else (1 << 64) - 1     # last seekable position
-    lens = [0, 1, 63, 64, 65, 256, 321] if tier == "quick" else [0, 1, 2, 63, 64, 65, 127, 128, 255, 256, 257, 321, 600]
+    # request lengths: block and chunk (256-byte) boundaries, and tails of 3 and 7 whole blocks after the chunks
+    lens = [0, 1, 63, 64, 65, 192, 256, 321, 448] if tier == "quick" else [0, 1, 2, 63, 64, 65, 127, 128, 129, 192, 255, 256, 257, 321, 384, 448, 600]
     base = [0, 1, 63, 64, 65, 300]
     wrap32 = [(1 << 38) - 257, (1 << 38) - 65, (1 << 38) - 64, (1 << 38) - 1]
     near_end = [end - 600, end - 257, end - 65, end - 64, end - 1, end]
